@@ -143,14 +143,30 @@ def make(cfg):
     return cls(**cfg["kw"])
 
 
-def invoke(cfg, obj, prob, seed):
-    """One call; returns (result, args) with the global numpy RNG seeded immediately before."""
+def invoke(cfg, obj, prob, seed, buffers=None):
+    """One call; returns (result, args) with the global numpy RNG seeded immediately before.
+    buffers: optional dict shape -> ndarray object of an earlier step; when the step asks for it the SAME array
+    object is overwritten in place with the new contents and passed again (in-place update by the caller)."""
     A = Q(prob["A"])
+    if buffers is not None:
+        key = ("A",) + tuple(A.shape)
+        if prob.get("reuse_buffer") and key in buffers:
+            np.copyto(buffers[key], A)
+            A = buffers[key]
+        else:
+            buffers[key] = A
     args = [A]
     np.random.seed(seed)
     with contextlib.redirect_stdout(io.StringIO()):
         if cfg["cls"] == "QGMRES":
             b = Q(prob["b"])
+            if buffers is not None:
+                keyb = ("b",) + tuple(b.shape)
+                if prob.get("reuse_buffer") and keyb in buffers:
+                    np.copyto(buffers[keyb], b)
+                    b = buffers[keyb]
+                else:
+                    buffers[keyb] = b
             args.append(b)
             r = obj.solve(A, b)
             # the Krylov basis is part of the returned info and must be reproducible too
@@ -174,6 +190,7 @@ def check_history(case):
     state0 = config_state(obj)
     prev_shape = None
     differs = False
+    buffers = {}
     for i, step in enumerate(case["steps"]):
         site = f"{cfg['cls']}{json.dumps(cfg['kw'], sort_keys=True)}"
         shape = tuple(step["A"].shape[:2])
@@ -183,7 +200,10 @@ def check_history(case):
         try:
             Aq = Q(step["A"])
             h_before = ahash(Aq)
-            r_reused, args = invoke(cfg, obj, step, step["seed"])
+            r_reused, args = invoke(cfg, obj, step, step["seed"], buffers)
+            if step.get("reuse_buffer"):
+                differs = True
+                out.label("argument_buffer_updated_in_place")
             raised = None
         except Exception as e:  # noqa: BLE001
             raised = e
@@ -223,6 +243,18 @@ def enum_histories(tier):
         else:
             seqs += [(a, b, c) for a in range(npool) for b in range(npool) for c in range(npool)
                      if (a * 5 + b * 3 + c) % 7 == 0]
+        for a in range(npool):
+            p0 = pool_problem(cfg["pool"], a)
+            p0["seed"] = 1000 + 17 * a
+            p0["pool_index"] = a
+            p1 = pool_problem(cfg["pool"], a)
+            p1["A"] = 0.5 * p1["A"][::-1].copy() + (ref.qeye(p1["A"].shape[0]) if p1["A"].shape[0] == p1["A"].shape[1] else 0.25)
+            if "b" in p1:
+                p1["b"] = p1["b"][::-1].copy() * 0.5 + 0.25
+            p1["seed"] = 1000 + 17 * a + 1
+            p1["pool_index"] = a
+            p1["reuse_buffer"] = True
+            cases.append({"config": ci, "steps": [p0, p1]})
         for seq in seqs:
             steps = []
             for k, pi in enumerate(seq):
@@ -274,10 +306,24 @@ def make_machine(tier, hooks):
                 ci = data.draw(st.integers(0, len(CONFIGS) - 1), label="config")
                 self.case = {"config": ci, "steps": []}
             cfg = CONFIGS[self.case["config"]]
-            kind = data.draw(st.sampled_from(["new", "new", "repeat_last"]), label="kind")
+            kind = data.draw(st.sampled_from(["new", "new", "repeat_last", "update_in_place"]), label="kind")
             if kind == "repeat_last" and self.case["steps"]:
                 step = dict(self.case["steps"][-1])
                 step["repeat"] = True
+            elif kind == "update_in_place" and self.case["steps"]:
+                last = self.case["steps"][-1]
+                step = {k: v for k, v in last.items() if k not in ("repeat",)}
+                c = data.draw(st.sampled_from([0.5, 0.75, 1.5]), label="factor")
+                An = last["A"] * c
+                if An.shape[0] == An.shape[1]:
+                    An = An + ref.qeye(An.shape[0])
+                else:
+                    An = An + 0.25
+                step["A"] = An
+                if "b" in last:
+                    step["b"] = last["b"] * c + 0.125
+                step["seed"] = data.draw(st.integers(0, 2 ** 31 - 1), label="seed")
+                step["reuse_buffer"] = True
             else:
                 step = data.draw(gen_problem(cfg["pool"]), label="problem")
                 step["seed"] = data.draw(st.integers(0, 2 ** 31 - 1), label="seed")
